@@ -27,6 +27,11 @@ claim("C04",
       "Bounds and the time model (nanosecond count with exact ms/s factorisation, range 2001..2096) are listed in the evidence assumptions; the real clock.Clock seam is implemented by the harness.",
       "DESIGN.md C04")
 
+claim("C19",
+      "Inductive, differential: from a state with memUsed == f(dataset), one keyspace mutator or mutating command is executed symbolically (key/value lengths symbolic) and memUsed is compared with the figure of a fresh server loaded with the resulting dataset by the same real accounting code; Flush must return the figure to 0. Because memUsed is one integer, preservation of the invariant for every step is the whole property.",
+      "Known findings: in-place mutation of stored collections (SADD SREM ZADD ZREM LSET HDEL) is not accounted. See evidence assumptions for bounds.",
+      "DESIGN.md C19")
+
 # every property without a claim is listed as not applicable (yet) with its reason
 NA_REASONS = {}
 for n in range(1, 21):
